@@ -504,3 +504,18 @@ def dec_terminals(text, one=False, pos=False):
                 toks.append((w, None))
         sents.append(toks)
     return sents
+
+
+def decode_file(fmt, text, v4=False):
+    """decode a file of any output format into a list of comparable sentences: (items, problem)"""
+    if fmt == "export":
+        return dec_export(text, v4=v4)
+    if fmt == "brackets":
+        return dec_brackets(text)
+    if fmt == "discobrackets":
+        return dec_brackets(text, disco=True)
+    if fmt == "tigerxml":
+        return dec_tiger(text.encode("utf-8") if isinstance(text, str) else text)
+    if fmt == "terminals":
+        return dec_terminals(text), ""
+    raise ValueError(fmt)
